@@ -169,7 +169,14 @@ def _mk_atomic_load(sortname, tname):
         ex.check_nonnil(st, p, ins, 'atomic-load')
         _atomic_access(ex, st, 'atomic-load', p, ins, fr)
         t = ins['type']
-        k(st, ex.load(st, t, p))
+        v = ex.load(st, t, p)
+        try:
+            info = getattr(fr, 'addrinfo', {}).get(ins['call']['args'][0].get('n'))
+            if info is not None and info[1] == 'table' and info[0] in ('Map', 'MapOf'):
+                st.trace.append(('tblload', v))
+        except Exception:
+            pass
+        k(st, v)
     return f
 
 
@@ -204,8 +211,22 @@ def _atomic_cas(ex, fr, ins, name, args, st, k):
     eq = ex.eq_vals(cur, V(et, args[1].x))
     # success
     st1 = st.copy()
+    flag = None
+    try:
+        flag = getattr(fr, 'addrinfo', {}).get(ins['call']['args'][0].get('n'))
+    except Exception:
+        flag = None
+    if ex.mode == 'tintf' and flag is not None and flag[1] == 'resizing' and ex.spec is not None and not getattr(ex, 'dry', 0):
+        # table-interference mode: winning the resize flag is where a resizer starts to own the table pointer; whatever
+        # other goroutines did before is visible now (same environment step as at a lock acquisition)
+        ex.cur_fr = fr
+        ex.spec.lock_env_step(ex, st1, p)
+        cur1 = ex.load(st1, et, p)
+        eq = ex.eq_vals(cur1, V(et, args[1].x))
     st1.pc.append(eq)
     st1.pathid.append('casT')
+    if flag is not None and flag[1] == 'resizing':
+        st1.trace.append(('flagwon',))
     ex.store(st1, p, V(et, args[2].x))
     k(st1, V('bool', z3.BoolVal(True)))
     # failure: in sequential mode a CAS fails only if the value differs
